@@ -142,6 +142,18 @@ CHECKS["C01"] = dict(
     technique="Lean 4 proofs over a model assembled from Go->Lean regenerated tables (header layout, version mix, constants) + differential correspondence incl. Lean SHA-256 + specification monitor",
     design="5/C01", engine="validator")
 
+CHECKS["C14"] = dict(
+    text="Kernel-checked invariants over a byte-level model of StratumConnection.Read/Write, for every stream, segmentation, "
+         "interleaving of arrivals / Read calls / cancellations (interrupting ReadBytes after any number of collected bytes) and "
+         "every line classifier: lines consumed ++ saved fragment ++ unread bytes = bytes sent (nothing lost, duplicated or "
+         "reordered); the consumed lines are exactly the first lines of the stream and the returned messages exactly the known-method "
+         "ones among them, in order (unknown ones skipped without touching their neighbours); a Read blocks only when no complete line "
+         "is left. Write side, for every sequence of writes each cut at any byte: the wire is the complete lines of the successful "
+         "writes in order followed by at most one fragment, after which the connection is closed and no write adds a byte. A real "
+         "StratumConnection over net.Pipe runs against the model under virtual time; concurrent writers are judged on the wire.",
+    technique="Lean 4 inductive invariants over a byte-level connection model + differential correspondence under synctest virtual time + wire monitor for concurrent writers",
+    design="5/C14", engine="proxy")
+
 NOT_YET = {}
 
 ALL = ["C%02d" % i for i in range(1, 21)]
